@@ -368,7 +368,8 @@ def check_lock_future(rep, facts):
     done = [s for s in states if s[3]["rv"]["vn"] == "Done"]
     if len(done) == 1 and done[0][0] is b:
         e = ir.peel(r.operand(done[0][3]["rv"]["ops"][0], (done[0][1], done[0][2])))
-        src_ok = any(x[0] == 'call' and x[1].endswith("Future>::poll") for x in ir.walk(e))
+        # FutureExt::poll_unpin(f, cx) is by definition Pin::new(f).poll(cx)
+        src_ok = any(x[0] == 'call' and (x[1].endswith("Future>::poll") or x[1].endswith("FutureExt::poll_unpin") or x[1].endswith("Future::poll")) for x in ir.walk(e))
         if src_ok:
             rep.ok("R10.1", "lock-future/stores-guard", "Done(guard) stores the guard produced by polling lock_owned()'s future", b.loc())
         else:
